@@ -235,6 +235,28 @@ Theorem C01_pmtiles_file_root_only :
 Proof. intros zip unzip H1 H2 h0 es meta tiles. exact (pm_written_file_lookup_root_only zip unzip H1 H2 pm_arith_variant h0 es meta tiles). Qed.
 Print Assumptions C01_pmtiles_file_root_only.
 
+(* the byte layouts the models use as literals are what the source says today (regenerated on every run) *)
+Lemma C01_gen_layout :
+  vt_header_length = 66%N /\ vt_block_def_length = 33%N /\ vt_tile_index_entry_length = 12%N /\
+  (2 ^ vt_block_shift = vt_block_grid)%N /\ vt_block_grid = 256%N /\
+  pm_header_length = 127%N /\ pm_metadata_position = 16384%N /\ pm_root_area_end = pm_metadata_position.
+Proof. repeat split; reflexivity. Qed.
+Theorem C01_layout_lengths :
+  (forall h, N.of_nat (length (hdr_to_blob h)) = vt_header_length) /\
+  (forall b l, bdef_as_blob b = Ok l -> N.of_nat (length l) = vt_block_def_length) /\
+  (forall idx, N.of_nat (length (tidx_as_blob idx)) = (vt_tile_index_entry_length * N.of_nat (length idx))%N) /\
+  (forall h, N.of_nat (length (pmh_serialize h)) = pm_header_length).
+Proof.
+  split; [|split; [|split]].
+  - intros h. unfold hdr_to_blob. rewrite !app_length, !be_length. reflexivity.
+  - intros b l H. unfold bdef_as_blob in H. destruct (u64_max <? _)%N; [discriminate|]. destruct (negb _); [discriminate|].
+    assert (El : l = be_bytes 1 (bd_z b) ++ be_bytes 4 (bd_x b) ++ be_bytes 4 (bd_y b) ++ be_bytes 1 (bd_cx0 b) ++ be_bytes 1 (bd_cy0 b) ++ be_bytes 1 (bd_cx1 b) ++ be_bytes 1 (bd_cy1 b) ++ be_bytes 8 (bd_toff b) ++ be_bytes 8 (bd_tlen b) ++ be_bytes 4 (bd_ilen b)) by congruence.
+    rewrite El, !app_length, !be_length. reflexivity.
+  - intros idx. rewrite tidx_length. change vt_tile_index_entry_length with 12%N. lia.
+  - intros h. rewrite pmh_serialize_length. reflexivity.
+Qed.
+Print Assumptions C01_layout_lengths.
+
 (* tar / directory: the member name `z/x/y<.format>[.gz|.br]` the writers produce is read back to the
    same coordinate, format (all ten) and compression, for every coordinate a tile can have *)
 Theorem C01_member_names :
